@@ -253,4 +253,41 @@ theorem mul_spec' {c : Ctx} (h : Valid c) (x y : List Nat) (hx : Wf x)
   · rw [f3]
   · rw [← f3, Nat.add_mul, Nat.add_mul_mod_self_left]
 
+/-- The `overflow` branch of `_mint_mulmod` never produces a carry: whenever the row loop ends
+with `overflow = true`, adding `2^(64k) - n` to the `k` result words gives carry 0, so the
+`res[SIZE] = 1` write ("FIXME: can it happen?") is unreachable for `y < n` (any `x`). -/
+theorem overflow_carry_zero {c : Ctx} (h : Valid c) (x y : List Nat) (hx : Wf x)
+    (hlx : x.length = 8) (hly : y.length = 8) (hvy : val y < c.n) (res : List Nat)
+    (hres : mulRows c.k c.ninv (c.nd.take c.k) (y.take c.k) (x.take c.k) (zeros (c.k + 1)) = some (res, true)) :
+    (addc res (compl (c.nd.take c.k)) 1).2 = 0 := by
+  have hk := h.kle
+  have hk1 := h.kpos
+  have hn := h.nlt
+  have hyk : val (y.take c.k) = val y := by
+    have := val_take_drop y c.k
+    rw [val_drop_eq_zero (lt_trans hvy hn)] at this; omega
+  have hnw := nd_take_val h c.k (le_refl _) (by omega)
+  have hnwl : (c.nd.take c.k).length = c.k := by simp [List.length_take, nd_length]; omega
+  have hnwf : Wf (c.nd.take c.k) := Wf_take (nd_Wf c) _
+  have hxne : x.take c.k ≠ [] := by
+    intro he
+    have : (x.take c.k).length = 0 := by rw [he]; rfl
+    rw [List.length_take, hlx] at this; omega
+  obtain ⟨res', ovf, f1, f2, f3, f4, _⟩ := mulRows_spec c.k c.ninv c.n (c.nd.take c.k) (y.take c.k)
+    hk1 hnwl hnw h.hninv hn (by rw [List.length_take, hly]; omega) (by rw [hyk]; exact hvy)
+    (x.take c.k) (Wf_take hx _) hxne (zeros (c.k + 1)) (by simp)
+    (by rw [val_zeros]; have := h.npos; omega)
+  rw [hres] at f1
+  cases f1
+  simp only [if_true] at f4
+  obtain ⟨g1, g2, g3⟩ := addc_spec res (compl (c.nd.take c.k)) 1 (by rw [compl_length, f2, hnwl])
+  have hcv := compl_val (c.nd.take c.k) hnwf
+  rw [hnwl, hnw] at hcv
+  rw [f2] at g1 g2
+  generalize addc res (compl (c.nd.take c.k)) 1 = r at *
+  generalize val (compl (c.nd.take c.k)) = vc at *
+  by_contra hne
+  have : W ^ c.k * 1 ≤ W ^ c.k * r.2 := Nat.mul_le_mul_left _ (by omega)
+  omega
+
 end Ymq.ZmodN
